@@ -253,7 +253,37 @@ def r3_panic_propagation(ctx):
     ctx.check(R, "ok-edge-does-not-diverge", not div, "diverging calls on the Ok edge of rx.await: %d" % len(div), (hb, okb))
 
 
-RULES = [("C16.R1", r1_mode_table), ("C16.R2", r2_exactly_once), ("C16.R3", r3_panic_propagation)]
+
+def r4_connection_config_shared(ctx):
+    """Added after adversary change C16-B (`builder.http1().half_close(true)` on the TLS accept arm only: hyper then stops
+    watching a pending request's read side for EOF, so a disconnecting HTTPS client no longer cancels its handler)."""
+    from .lib_c16 import server_task
+    from .lib import const_int
+    R = ctx.rule("C16.R4", "the hyper connection builder is configured once, before the transport switch (every configuration call dominates both serve_connection sites), "
+                 "so HTTP and HTTPS connections detect disconnects identically; HTTP/1 half-close is never enabled", floor=3)
+    stt = server_task(ctx.ds)
+    if isinstance(stt, str):
+        ctx.lost(R, stt)
+        return
+    st, sp, co, node = stt
+    serves = co.live_calls(r"auto::Builder::<E>::serve_connection(_with_upgrades)?$")
+    ctx.check(R, "serve-sites", len(serves) == 2, "connection-serving call sites in the server task: %d (HTTP and HTTPS)" % len(serves), co)
+    cfg = [(bb, t) for bb, t in co.live_calls(r"auto::(Builder::<E>|Http1Builder::<'_, E>|Http2Builder::<'_, E>)::") if not re.search(r"::(new|serve_connection(_with_upgrades)?)$", t["callee"])]
+    for bb, t in cfg:
+        name = t["callee"].split("auto::")[-1]
+        shared = all(co.dominates(bb, sbb) for sbb, _ in serves)
+        ctx.check(R, "config-call:%s" % name, shared, "builder configuration `%s` %s both serve sites%s" % (name, "dominates" if shared else "does NOT dominate",
+                  "" if shared else " — one transport is configured differently from the other"), (co, bb))
+    for g in [co] + ctx.ds.descendants(co) + [st]:
+        for bb, t in g.live_calls(r"half_close$"):
+            v = const_int(t["args"][1]) if len(t["args"]) > 1 else None
+            ctx.check(R, "half-close-disabled", v == 0, "half_close(%s): with half-close allowed hyper does not treat the client's EOF as a disconnect while a response is pending" % ("true" if v else v), (g, bb))
+    # the same builder value serves both
+    same = len(serves) == 2 and all(co.slice(t["args"][0]).has_call(r"auto::Builder::<E>::new$") for _, t in serves)
+    ctx.check(R, "one-builder", same, "both serve sites use the builder created once at the top of the task: %s" % same, co)
+
+
+RULES = [("C16.R4", r4_connection_config_shared), ("C16.R1", r1_mode_table), ("C16.R2", r2_exactly_once), ("C16.R3", r3_panic_propagation)]
 
 _S = "dropshot/src/server.rs"
 SELFTEST = [
@@ -302,3 +332,5 @@ SELFTEST = [
      "edits": [(_S, "            let handler_task = tokio::spawn(async move {\n                let request_log = rqctx.log.clone();", "            let handler_task = tokio::spawn(run_detached(rqctx, handler, request, tx, worker));\n            #[cfg(any())]\n            let _unused = (async move {\n                let request_log = rqctx.log.clone();"),
                (_S, "async fn http_request_handle<C: ServerContext>(", "async fn run_detached<C: ServerContext>(\n    rqctx: RequestContext<C>,\n    handler: Arc<dyn crate::handler::RouteHandler<C>>,\n    request: Request<crate::Body>,\n    tx: oneshot::Sender<Result<Response<Body>, HandlerError>>,\n    worker: DebugIgnore<waitgroup::Worker>,\n) {\n    let request_log = rqctx.log.clone();\n    let result = handler.handle_request(rqctx, request).await;\n    if let Err(result) = tx.send(result) {\n        match result {\n            Ok(r) => warn!(request_log, \"request completed after handler was already cancelled\"; \"response_code\" => r.status().as_u16()),\n            Err(error) => warn!(request_log, \"request completed after handler was already cancelled\"; \"response_code\" => error.status_code().as_u16()),\n        }\n    }\n    mem::drop(worker);\n}\n\nasync fn http_request_handle<C: ServerContext>(")]},
 ]
+
+LEVEL_TEXT += ' Also (R4): the hyper connection builder is configured once before the transport switch and HTTP/1 half-close is never enabled, so HTTP and HTTPS detect a disconnect identically.'
